@@ -6,8 +6,8 @@ sys.path.insert(0, HERE)
 from contracts import index
 from tools import manifest_meta as M
 
-BOUNDED_NOTE = (" BOUNDED stand-in (not proof): bounded/universe.py evaluates the property statement end to end on 60 (quick) / 600 (thorough) "
-                "seeded small projects (1 h slots, 1-2 resources, 2-4 tasks, one container, limits, leaves, gaps); a failure there is a "
+BOUNDED_NOTE = (" BOUNDED stand-in (not proof): bounded/universe.py evaluates the property statement end to end on 120 (quick) / 1200 (thorough) "
+                "seeded small projects plus per-property sub-universes (bound stated in bounded/universe.py and in the evidence); a failure there is a "
                 "VIOLATION with the project text as replay; open known findings are re-confirmed by their witness inputs (witnesses/run.py).")
 props = [json.loads(l) for l in open(os.path.join(HERE, "properties.jsonl"))]
 checks = []
